@@ -1012,7 +1012,9 @@ class GroupCoordinator(BaseCoordinator):
                     "to another member"
                 ) from exc
             except Errors.KafkaError as err:
-                if not err.retriable:
+                if not err.retriable or self._closing.done():
+                    # While closing the coordinator is not looked up anymore,
+                    # so there is nothing to wait for.
                     raise
                 else:
                     # wait backoff and try again
